@@ -53,14 +53,102 @@ pub fn gen_values(env: &Env, d: &D, s: &mut Src, mode: Mode, n_member: usize, n_
     out.into_iter().map(|(v, l)| (crate::jsval::canon(v), l)).collect()
 }
 
+/// `{ [key: string]: T }` <-> `{ [key: string]: T | undefined }` at the first index signature found (the second is what
+/// `Partial<Record<string, T>>` means)
+pub fn toggle_index_optionality(d: &D) -> Option<D> {
+    match d {
+        D::Object { props, index: Some(ix) } => {
+            let new_ix = match ix.as_ref() {
+                D::Union(ms) if ms.len() == 2 && ms.iter().any(|m| matches!(m, D::Undefined)) => ms.iter().find(|m| !matches!(m, D::Undefined)).unwrap().clone(),
+                other => D::Union(vec![other.clone(), D::Undefined]),
+            };
+            Some(D::Object { props: props.clone(), index: Some(Box::new(new_ix)) })
+        }
+        D::Object { props, index: None } => {
+            for (i, p) in props.iter().enumerate() {
+                if let Some(t) = toggle_index_optionality(&p.ty) {
+                    let mut p2 = props.clone();
+                    p2[i].ty = t;
+                    return Some(D::Object { props: p2, index: None });
+                }
+            }
+            None
+        }
+        D::Array(x) => toggle_index_optionality(x).map(|t| D::Array(Box::new(t))),
+        D::Union(ms) => {
+            for (i, m) in ms.iter().enumerate() {
+                if let Some(t) = toggle_index_optionality(m) {
+                    let mut m2 = ms.clone();
+                    m2[i] = t;
+                    return Some(D::Union(m2));
+                }
+            }
+            None
+        }
+        _ => None,
+    }
+}
+
 pub fn gen_typed_case(s: &mut Src, cfg: &GenCfg, rcfg: RenderCfg, mode: Mode, max_roots: usize, vals: (usize, usize, usize)) -> TypedCase {
     let n_roots = s.range(1, max_roots);
     let (env, roots) = gen_env_and_roots(s, cfg, n_roots);
-    let roots: Vec<(String, D)> = roots.into_iter().enumerate().map(|(i, d)| (format!("P{}", i), d)).collect();
-    let (program, rendered) = render_program(&env, &roots, rcfg, s, "");
+    let mut roots: Vec<(String, D)> = roots.into_iter().enumerate().map(|(i, d)| (format!("P{}", i), d)).collect();
+    // a near-duplicate sibling: one more parser whose type is a one-edit variant of a root or of a named definition (an
+    // optionality flipped - also that of an index signature's value -, a literal changed, a member added or dropped).
+    // Validators that the compiler shares between structurally equal sub-types must not be shared between these.
+    let mut twin: Option<(Option<usize>, usize)> = None;
+    if s.chance(1, 3) {
+        let from_def = !env.defs.is_empty() && s.chance(1, 3);
+        let (src_root, src_d) = if from_def {
+            (None, env.get(s.below(env.defs.len())).clone())
+        } else {
+            let i = s.below(roots.len());
+            (Some(i), roots[i].1.clone())
+        };
+        let edited = match s.below(4) {
+            0 => crate::den::toggle_some_optionality(&src_d, s),
+            1 => toggle_index_optionality(&src_d),
+            _ => None,
+        };
+        let m = edited.unwrap_or_else(|| crate::den::mutate_type(&src_d, s, cfg, env.defs.len()));
+        // an edit must not produce an object type whose named properties are not assignable to its index signature
+        // (`{ a: number; [key: string]: string }` is not TypeScript): every object with both has to occur in the source
+        fn indexed_with_props(d: &D, out: &mut Vec<String>) {
+            d.any_node(&mut |n| {
+                if let D::Object { props, index: Some(_) } = n {
+                    if !props.is_empty() {
+                        out.push(serde_json::to_string(n).unwrap_or_default());
+                    }
+                }
+                false
+            });
+        }
+        let (mut before, mut after) = (vec![], vec![]);
+        indexed_with_props(&src_d, &mut before);
+        for (_, d) in &env.defs {
+            indexed_with_props(d, &mut before);
+        }
+        indexed_with_props(&m, &mut after);
+        let well_formed = after.iter().all(|x| before.contains(x));
+        if m != src_d && well_formed {
+            twin = Some((src_root, roots.len()));
+            roots.push(("M0".to_string(), m));
+        }
+    }
+    let (program, mut rendered) = render_program(&env, &roots, rcfg, s, "");
     let mut values = vec![];
     for (_, d) in &roots {
         values.push(gen_values(&env, d, s, mode, vals.0, vals.1, vals.2));
+    }
+    if let Some((src, j)) = twin {
+        *rendered.used.entry("near_duplicate_sibling".to_string()).or_insert(0) += 1;
+        // each one's members are near misses of the other
+        if let Some(i) = src {
+            let a: Vec<(JsVal, String)> = values[i].iter().filter(|v| v.1 == "member").take(4).map(|v| (v.0.clone(), "near".to_string())).collect();
+            let b: Vec<(JsVal, String)> = values[j].iter().filter(|v| v.1 == "member").take(4).map(|v| (v.0.clone(), "near".to_string())).collect();
+            values[j].extend(a);
+            values[i].extend(b);
+        }
     }
     TypedCase { env, roots, program, values, used: rendered.used }
 }
